@@ -48,10 +48,16 @@ pub struct AF<'a> {
     /// like `gone_at`, but for handles proper (a parked send future keeps the mailbox open, yet weak handles,
     /// timers and the context cannot be upgraded through it)
     pub arc_gone_at: Option<u64>,
+    /// a parked `Sender::send` future existed for this actor at some point
+    pub parked: bool,
     pub is_child: bool,
     pub incs: Vec<Inc>,
     pub task_end: Option<(u64, u64, &'static str)>,
     pub has_timers: bool,
+    /// for a child: the earliest point at which a parent that holds it began to go away (exit of the parent's final
+    /// `stopped()`, else the parent's fault / task end): from then on the parent's strong handle may be released,
+    /// which the reference model of the child does not see
+    pub parent_release: Option<u64>,
 }
 
 impl<'a> AF<'a> {
@@ -92,7 +98,7 @@ impl<'a> AF<'a> {
     }
     /// earliest stamp of any termination request / cause visible to the harness
     pub fn first_term_cause(&self) -> Option<u64> {
-        [self.first_stop_b(), self.stream_end, self.zero_at].into_iter().flatten().min()
+        [self.first_stop_b(), self.stream_end, self.zero_at, self.parent_release].into_iter().flatten().min()
     }
 }
 
@@ -115,10 +121,12 @@ pub fn facts<'a>(cx: &'a Cx) -> BTreeMap<u32, AF<'a>> {
             zero_at: None,
             gone_at: None,
             arc_gone_at: None,
+            parked: false,
             is_child: false,
             incs: vec![],
             task_end: a.end,
             has_timers: false,
+            parent_release: None,
         };
         // incarnations
         for t in &a.timeline {
@@ -250,6 +258,9 @@ pub fn facts<'a>(cx: &'a Cx) -> BTreeMap<u32, AF<'a>> {
             K::Ref { tag, delta, c, hk } => {
                 if let Some(task) = by_tag.get(tag) {
                     if let Some(af) = out.get_mut(task) {
+                        if *hk == Hk::Fut {
+                            af.parked = true;
+                        }
                         if *hk != Hk::Fut {
                             let n = arc_counts.entry(*tag).or_insert(0i64);
                             *n += *delta as i64;
@@ -269,6 +280,26 @@ pub fn facts<'a>(cx: &'a Cx) -> BTreeMap<u32, AF<'a>> {
             }
             _ => {}
         }
+    }
+    // children: when may the parent's handle go away?
+    let mut release: BTreeMap<u32, u64> = BTreeMap::new(); // child tag -> stamp
+    for e in ix.ev {
+        if let K::Effect { actor, what, arg, .. } = &e.k {
+            if *what == "add_child" || *what == "register_child" {
+                let ctag = (*arg & 0xffff_ffff) as u32;
+                if let Some(p) = out.get(actor) {
+                    let fault = ix.ev.iter().find(|x| x.task == p.task && matches!(x.k, K::Fault { .. })).map(|x| x.stamp);
+                    let at = p.t_final().and_then(|t| t.1).into_iter().chain(fault).chain(p.task_end.map(|t| t.0)).min();
+                    if let Some(at) = at {
+                        let r = release.entry(ctag).or_insert(at);
+                        *r = (*r).min(at);
+                    }
+                }
+            }
+        }
+    }
+    for af in out.values_mut() {
+        af.parent_release = release.get(&af.tag).copied();
     }
     for af in out.values_mut() {
         if let Some((s, 0)) = arc_last.get(&af.tag).copied() {
